@@ -167,6 +167,10 @@ func runC16(r *Rng, n int, tier string) {
 			c.outDir = r.Pick([]string{"db", "internal/StoreDB", "DB", "gen/my_db", "Out", "pkg/v2db"})
 		}
 		c.p.Overrides = nil
+		if !c.p.Opts["emit_json_tags"] && i%2 == 1 {
+			// a case style is set although tags are not emitted: the setting is inert, in every front end
+			c.p.CaseStyle = r.Pick([]string{"camel", "pascal", "snake"})
+		}
 		if i%3 == 1 {
 			// query names need not be exported identifiers
 			for k := range c.p.Queries {
@@ -239,9 +243,6 @@ func runC16(r *Rng, n int, tier string) {
 					c2.p.Opts[k] = v
 				}
 				c2.p.Opts[opt] = !c.p.Opts[opt]
-				if opt == "emit_json_tags" && !c2.p.Opts[opt] {
-					c2.p.CaseStyle = ""
-				}
 				got := generate(withConf("sqlc.json", c2.v1JSON()))
 				msg := ""
 				if !got.OK() {
